@@ -580,4 +580,20 @@ Print Assumptions C09_cbca_slice_of_nested_intervals.
 Print Assumptions C09_cbca_grid_inside_refuted.
 Print Assumptions C09_gen_dsp_index_consistent.
 Print Assumptions C09_gen_interval_test.
+
+(* ... and for per-pixel bounds that are NOT whole pixels (grids derived from refined disparities by the multiscale
+   step, float grid files): the same generated comparison, read in the unit 1/(4 s) pixel (scale argument 1, sample
+   D/s written 4 D, bound q/4 written q s), removes the cost exactly when the sample is outside [gq/4, hq/4] as
+   rationals; the samples kept run from the CEILING of the lower bound to the FLOOR of the upper bound; on
+   whole-pixel bounds it is the test above.  (The translated statement is run by numpy on quarter-pixel grids in
+   harness/mc_gen.py and compared with the extracted generated test in this reading.) *)
+Theorem C09_gen_interval_test_quarter_pixel : forall s gq hq r c D, 0 < s ->
+  (G.cv_masked_out_of_range 1 (fun r c => gq r c * s) (fun r c => hq r c * s) r c (4 * D) = true
+   <-> (Qlt (D # Z.to_pos s) (gq r c # 4) \/ Qlt (hq r c # 4) (D # Z.to_pos s)))
+  /\ (G.cv_masked_out_of_range 1 (fun r c => gq r c * s) (fun r c => hq r c * s) r c (4 * D) = false
+      <-> - ((- (gq r c * s)) / 4) <= D <= (hq r c * s) / 4)
+  /\ (forall g h, G.cv_masked_out_of_range 1 (fun r c => 4 * g r c * s) (fun r c => 4 * h r c * s) r c (4 * D)
+                  = G.cv_masked_out_of_range s g h r c D).
+Proof. exact PointIntervalGenP.gen_interval_test_quarter_all. Qed.
+Print Assumptions C09_gen_interval_test_quarter_pixel.
 Print Assumptions C09_gen_axis_origin.
